@@ -1,15 +1,18 @@
 #!/bin/bash
+# usage: seeds_on_repo.sh [seed-id ...]  (default: all)
 # Final pass of the seeded changes on /repo itself: apply, run the property's quick check, undo. Writes seeded/ON_REPO.md.
 cd /verif
 OUT=seeded/ON_REPO.md
 echo "# Seeded changes applied to /repo itself (git -C /repo apply; quick check; git -C /repo checkout -- .)" > $OUT
 echo >> $OUT; echo "| seed | check exit | VIOLATION lines |" >> $OUT; echo "|---|---|---|" >> $OUT
-for d in seeded/C*-*/; do
+LIST=${@:-$(ls -d seeded/C*-*/)}
+for d in $LIST; do
+  d=${d%/}/; [ -d "$d" ] || d=seeded/$d/
   s=$(basename $d); p=${s%%-*}
   [ -f $d/patch.diff ] || { echo "| $s | obsolete (see meta.json) | |" >> $OUT; continue; }
   [ -n "$(git -C /repo status --porcelain --untracked-files=no)" ] && { echo "repo dirty, abort"; exit 1; }
-  git -C /repo apply $d/patch.diff || { echo "| $s | patch does not apply | |" >> $OUT; continue; }
-  VERIF_OUT=/verif/.cache/onrepo-out python3 verif.py check $p > /verif/.cache/onrepo.log 2>&1; rc=$?
+  git -C /repo apply /verif/${d}patch.diff || { echo "| $s | patch does not apply | |" >> $OUT; continue; }
+  VERIF_OUT=/verif/.cache/onrepo-out VERIF_JOBS=${VERIF_JOBS:-16} python3 verif.py check $p > /verif/.cache/onrepo.log 2>&1; rc=$?
   git -C /repo checkout -- .
   echo "| $s | $rc | $(grep -ac '^VIOLATION' /verif/.cache/onrepo.log) |" >> $OUT
   echo "$s $rc"
